@@ -61,9 +61,6 @@ func ExoticAttr(s *Src, kind int) bgp.PathAttributeInterface {
 				continue
 			}
 			v := xBytes(s, 16)
-			if len(v) == 0 && avoid("aigp-empty-tlv") {
-				v = []byte{0}
-			}
 			// type 1 is the IGP metric TLV; any other type is carried as raw octets
 			tlvs = append(tlvs, bgp.NewAigpTLVDefault(bgp.AigpTLVType(Pick(s, []uint8{2, 0, 3, 255})), v))
 		}
@@ -138,8 +135,8 @@ func xTunnelSubTLV(s *Src, kind int) bgp.TunnelEncapSubTLVInterface {
 		case 2:
 			sid = s.V6().AsSlice()
 		}
-		b := must(bgp.NewBSID(sid)) // nil for an empty SID
-		if b == nil && avoid("srbsid-nil-bsid") {
+		b := must(bgp.NewBSID(sid)) // nil for an empty SID (what apiutil then stores)
+		if b == nil && s.Bool() {
 			b = &bgp.BSID{Value: []byte{}} // what the decoder produces for "no binding SID"
 		}
 		l := 2
@@ -193,22 +190,9 @@ func xTunnelEncap(s *Src) bgp.PathAttributeInterface {
 	tlvs := make([]*bgp.TunnelEncapTLV, 0, n)
 	for i := 0; i < n; i++ {
 		c := s.Len(4)
-		subs := make([]bgp.TunnelEncapSubTLVInterface, 0, c+1)
+		subs := make([]bgp.TunnelEncapSubTLVInterface, 0, c)
 		for j := 0; j < c; j++ {
 			subs = append(subs, xTunnelSubTLV(s, s.Intn(NumTunnelSubTLVKinds)))
-		}
-		if c > 0 {
-			if u, ok := subs[c-1].(*bgp.TunnelEncapSubTLVUnknown); ok && u.Type < 0x80 && len(u.Value) == 0 && avoid("tunnel-encap-trailing-empty-subtlv") {
-				u.Value = []byte{0}
-			}
-		}
-		if c == 0 && i == n-1 && avoid("tunnel-encap-trailing-empty-tlv") {
-			subs = append(subs, bgp.NewTunnelEncapSubTLVColor(s.U32()))
-		}
-		if avoid("tunnel-encap-len-before-serialize") {
-			for _, st := range subs { // Serialize stores the value length Len() depends on
-				must(st.Serialize())
-			}
 		}
 		tlvs = append(tlvs, bgp.NewTunnelEncapTLV(Pick(s, xTunnelTypes), subs))
 	}
@@ -433,7 +417,6 @@ func xLsAttr(s *Src) bgp.PathAttributeInterface {
 	}
 	length := 0
 	for _, t := range tlvs {
-		xLsFixCtor(t)
 		xLsVary(s, t)
 		t.Serialize() // LsTLVFlexAlgoDef sets its length here; errors surface again when the attribute is serialised
 		length += t.Len()
@@ -443,41 +426,6 @@ func xLsAttr(s *Src) bgp.PathAttributeInterface {
 		flags |= bgp.BGP_ATTR_FLAG_EXTENDED_LENGTH
 	}
 	return &bgp.PathAttributeLs{PathAttribute: bgp.PathAttribute{Flags: flags, Type: bgp.BGP_ATTR_TYPE_LS, Length: uint16(length)}, TLVs: tlvs}
-}
-
-// xLsFixCtor repairs what the BGP-LS TLV constructors with a known defect produce
-// (unless the issue is switched off): the result is what the decoder builds for the same TLV.
-func xLsFixCtor(t bgp.LsTLVInterface) {
-	switch v := t.(type) {
-	case *bgp.LsTLVLocalIPv6RouterID:
-		if avoid("ls-ctor-local-ipv6-router-id") {
-			v.Length = 16
-		}
-	case *bgp.LsTLVRemoteIPv6RouterID:
-		if avoid("ls-ctor-remote-ipv6-router-id") {
-			v.Length = 16
-		}
-	case *bgp.LsTLVSrCapabilities:
-		if avoid("ls-ctor-sr-capabilities") {
-			v.Length = uint16(2 + 11*len(v.Ranges))
-		}
-	case *bgp.LsTLVSrLocalBlock:
-		if avoid("ls-ctor-sr-local-block") {
-			v.Length = uint16(2 + 11*len(v.Ranges))
-		}
-	case *bgp.LsTLVPrefixSID:
-		if avoid("ls-ctor-prefix-sid") {
-			v.Length = 8
-		}
-	case *bgp.LsTLVOpaquePrefixAttr:
-		if len(v.Attr) > 0 && avoid("ls-ctor-opaque-prefix-attr") {
-			v.Length = uint16(len(v.Attr))
-		}
-	case *bgp.LsTLVPeerAdjacencySID:
-		if avoid("ls-ctor-peer-adjacency-sid-type") {
-			v.Type = bgp.LS_TLV_PEER_ADJACENCY_SID
-		}
-	}
 }
 
 // xLsVary switches a TLV to another wire form the decoder accepts (the constructors know one
@@ -497,11 +445,9 @@ func xLsVary(s *Src, t bgp.LsTLVInterface) {
 			v.Length, v.SID = 8, s.U32()
 		}
 	case *bgp.LsTLVPrefixSID:
-		if v.Length == 8 { // only the repaired constructor result can be varied
-			v.Flags, v.Algorithm = s.U8(), Pick(s, []uint8{0, 1, 128, 255})
-			if s.Chance(1, 3) {
-				v.Length, v.SID = 7, xLabel20(s)
-			}
+		v.Flags, v.Algorithm = s.U8(), Pick(s, []uint8{0, 1, 128, 255})
+		if s.Chance(1, 3) {
+			v.Length, v.SID = 7, xLabel20(s)
 		}
 	}
 }
